@@ -847,6 +847,11 @@ func (t *State) ClearCache() {
 	if err := t.utxo.ReloadUtxoTotal(); err != nil {
 		t.log.Warn("reload utxo total failed", "err", err)
 	}
+	// ... and so does whatever the dropped batch had staged in the meta (irreversible height,
+	// block size, gas price, ...): the staging copy restarts from the published meta
+	t.meta.MutexMeta.Lock()
+	t.meta.MetaTmp = proto.Clone(t.meta.Meta).(*pb.UtxoMeta)
+	t.meta.MutexMeta.Unlock()
 	t.log.Info("clear utxo cache")
 }
 
